@@ -1878,6 +1878,13 @@ func (c *Conn) prepareLegacyPacket(
 		return incomingPacketState{}, false
 	}
 
+	if header.Epoch == 0 && header.ContentType == protocol.ContentTypeConnectionID {
+		// tls12_cid records are always protected [RFC9146 Section-4]: there is none in epoch 0.
+		c.log.Debug("discarded tls12_cid record of epoch 0")
+
+		return incomingPacketState{}, false
+	}
+
 	markPacketAsValid, ok := c.legacyReplayMarker(header)
 	if !ok {
 		return incomingPacketState{}, false
